@@ -13,6 +13,7 @@ import XtModel.Model.MsgpackCodec
 import XtModel.Model.CliWire
 import XtModel.Model.Stream
 import XtModel.Model.Bridge
+import XtModel.Model.Translate
 
 /-!
 Native driver: one case per input line, one answer per output line
@@ -655,8 +656,122 @@ def bridge (fs : List String) : String :=
 
 end BR
 
+/-! ### translate: `translatemodel <slice|reader:<caps>:<fail>> <hex> [y=<trial> ye=<0|1> t=<trial>]`,
+`trialextent <msgpack|json> <caps> <hex>`
+
+`translatemodel` answers `<detected|none|ioerr> <slice|reader|-> <verdict class> <ndocs>` for
+`Translator::translate(input, None)`.  The YAML / TOML trial answers (and whether
+the YAML trial saw the end of the input) come from the real hooks on the case
+line; they are only consulted when neither the MessagePack nor the JSON trial
+decides.  `trialextent` answers `<trial answer> <bytes captured> <eof 0|1>` for
+one concrete trial on a fresh reader. -/
+namespace TR
+open Xt.Translate Xt.Input
+
+def parseMode (s : String) : Option (Option (List Nat × Bool × Option Nat)) :=
+  if s = "slice" then some none else
+  match s.splitOn ":" with
+  | ["reader", caps, fail] =>
+    match parseCaps caps, parseOptNat fail with
+    | some (cs, cyc), some fa => some (some (cs, cyc, fa))
+    | _, _ => none
+  | _ => none
+
+def kv (key : String) (toks : List String) : Option String :=
+  toks.findSome? fun t => if t.startsWith (key ++ "=") then some (t.drop (key.length + 1)).toString else none
+
+def extOf (toks : List String) : Option Xt.Translate.Ext :=
+  match kv "y" toks, kv "ye" toks, kv "t" toks with
+  | some y, some ye, some t =>
+    match parseTrial y, parseTrial t with
+    | some y, some t =>
+      some { yamlSlice := fun _ => y
+             yamlReader := fun bs => (y, if ye = "1" then bs.length + 1 else bs.length)
+             tomlUtf8 := fun _ => true
+             tomlParses := fun _ => t = .matched }
+    | _, _ => none
+  | _, _, _ => none
+
+/-- Stand-in when the case line carries no YAML / TOML answers: must not be reached. -/
+def noExt : Xt.Translate.Ext :=
+  { yamlSlice := fun _ => .ioErr, yamlReader := fun _ => (.ioErr, 0), tomlUtf8 := fun _ => false,
+    tomlParses := fun _ => false }
+
+def seenTok : Seen → String
+  | .slice _ => "slice"
+  | .reader _ _ => "reader"
+
+def jsonVerdictTok : Xt.Json.Verdict → String
+  | .ok => "ok"
+  | .err e => "err:" ++ errName e
+
+def mpVerdictTok : Xt.Msgpack.Verdict → String
+  | .ok => "ok"
+  | _ => "err"
+
+def translatemodel (fs : List String) : String :=
+  match fs with
+  | "translatemodel" :: mode :: hex :: toks =>
+    match parseMode mode, parseHex hex with
+    | some m, some bs =>
+      let src : Src := match m with
+        | none => .slice bs
+        | some (cs, cyc, fa) => .reader (Source.new bs cs cyc fa)
+      let ext := extOf toks
+      let E := ext.getD noExt
+      -- do the concrete trials decide?
+      let mj := mpTrial src.handle
+      let concreteMJ : Bool := match decided .msgpack mj.1 with
+        | some _ => true
+        | none => (decided .json (jsonTrial mj.2).1).isSome
+      if !concreteMJ && ext.isNone then "need-ext" else
+      let d := detectOn E src.handle
+      match d.1 with
+      | .panic s => "panic:" ++ siteName s
+      | .det .none => "none - unable 0"
+      | .det .ioErr => "ioerr - ioerr 0"
+      | .det (.fmt f) =>
+        let seen := seenOfHandle d.2
+        let fm := detectedTok (.fmt f)
+        match translate E (concrete (X := Unit) (fun _ => ()) (fun _ => ())) none src with
+        | .ran (.json docs v) => s!"{fm} {seenTok seen} {jsonVerdictTok v} {docs.length}"
+        | .ran (.msgpack docs v) => s!"{fm} {seenTok seen} {mpVerdictTok v} {docs.length}"
+        | .ran .readerFault => s!"{fm} {seenTok seen} fault -"
+        | .ran (.ext _) => s!"{fm} {seenTok seen} - -"
+        | .unableToDetect => "none - unable 0"
+        | .ioError => "ioerr - ioerr 0"
+        | .panic s => "panic:" ++ siteName s
+    | _, _ => "bad-case"
+  | _ => "bad-case"
+
+def stepTok : Step → String
+  | .answer .matched => "match"
+  | .answer .noMatch => "nomatch"
+  | .answer .ioErr => "ioerr"
+  | .panic s => "panic:" ++ siteName s
+
+def trialextent (fs : List String) : String :=
+  match fs with
+  | ["trialextent", fmt, caps, hex] =>
+    match parseCaps caps, parseHex hex with
+    | some (cs, cyc), some bs =>
+      let h := Handle.fromReader (Source.new bs cs cyc none)
+      let r := match fmt with
+        | "msgpack" => some (mpTrial h)
+        | "json" => some (jsonTrial h)
+        | _ => none
+      match r with
+      | some r => s!"{stepTok r.1} {captured r.2} {if flipped r.2 then 1 else 0}"
+      | none => "bad-case"
+    | _, _ => "bad-case"
+  | _ => "bad-case"
+
+end TR
+
 def answer (fs : List String) : String :=
   match fs with
+  | "translatemodel" :: _ => TR.translatemodel fs
+  | "trialextent" :: _ => TR.trialextent fs
   | "encdetect" :: _ | "reencode" :: _ | "reencstream" :: _ => encoding fs
   | ["transcode", tree, script] => Xt.TranscodeWire.runTranscode tree script
   | ["valuepath", tree, script] => Xt.TranscodeWire.runValuePath tree script
